@@ -59,6 +59,7 @@ Const(n, e)   == [k |-> "const", n |-> n, e |-> e]
 ConstG(ns, e) == [k |-> "constg", ns |-> ns, e |-> e]     \* const ( n1 = e; n2; n3 ) with iota
 Asg(n, e)     == [k |-> "asg", n |-> n, e |-> e]          \* n = e
 AsgI(t, i, e) == [k |-> "asgi", t |-> t, i |-> i, e |-> e] \* t[i] = e   (t: expression)
+CmpI(t, i, op, e) == [k |-> "cmpi", t |-> t, i |-> i, op |-> op, e |-> e] \* t[i] op= e
 AsgS(t, n, e) == [k |-> "asgs", t |-> t, n |-> n, e |-> e] \* t.n = e
 Cmp(n, op, e) == [k |-> "cmp", n |-> n, op |-> op, e |-> e] \* n op= e
 Destr(ns, d, e) == [k |-> "destr", ns |-> ns, d |-> d, e |-> e] \* n1, n2 := e  (d: define) / n1, n2 = e
@@ -338,6 +339,8 @@ ExecS(s, env, st, d) ==
          ELSE LET x == BinOp(s.op, cur, r.v, r.st) IN
               IF ~x.ok THEN SR(<<"thr", x.v>>, env, r.st)
               ELSE SR(Norm, env, WriteVar(Lookup(env, s.n), x.v, r.st))
+    [] s.k = "cmpi" ->      \* t[i] op= e means t[i] = t[i] op e: target and index are evaluated for the read and again for the write
+         ExecS(AsgI(s.t, s.i, Bin(s.op, Idx(s.t, s.i), s.e)), env, st, d)
     [] s.k = "asgi" ->      \* t[i] = e : right-hand side first, then target, then index
          LET r == Eval(s.e, env, st, d) IN
          IF ~r.ok THEN SR(<<"thr", r.v>>, env, r.st)
@@ -456,7 +459,7 @@ BRefsFrom(b, i, sc) ==
                [] s.k = "constg" -> <<ERefs(s.e, Append(sc, {"iota"})), DeclS(sc, SeqSet(s.ns))>>
                [] s.k \in {"param", "global"} -> <<{}, DeclS(sc, SeqSet(s.ns))>>
                [] s.k \in {"asg", "cmp"} -> <<ERefs(s.e, sc) \cup ERefs(Id(s.n), sc), sc>>
-               [] s.k = "asgi" -> <<ERefs(s.e, sc) \cup ERefs(s.t, sc) \cup ERefs(s.i, sc), sc>>
+               [] s.k \in {"asgi", "cmpi"} -> <<ERefs(s.e, sc) \cup ERefs(s.t, sc) \cup ERefs(s.i, sc), sc>>
                [] s.k = "asgs" -> <<ERefs(s.e, sc) \cup ERefs(s.t, sc), sc>>
                [] s.k = "destr" -> <<ERefs(s.e, sc), IF s.d THEN DeclS(sc, SeqSet(s.ns)) ELSE sc>>
                [] s.k \in {"expr", "log", "ret", "thr"} -> <<ERefs(s.e, sc), sc>>
